@@ -748,7 +748,8 @@ class SqlalchemyRender:
 
         table = sa.table(table_name, schema=schema, *columns)
 
-        stmt = table.update().values(**to_update)
+        # as one dict: a column may be called like a parameter of values() ("self")
+        stmt = table.update().values(to_update)
 
         if ast_query.where is not None:
             stmt = stmt.where(self.to_expression(ast_query.where))
